@@ -207,7 +207,9 @@ ItemInit(tok) ==
         <<Tok[tok].dt, "f">>, T(K + 2), L) EXCEPT !.inits = <<[id |-> T(K + 1), tok |-> tok]>>]
 
 \* If items.  csrc: the condition is the graph input B or a comparison computed in the graph
-IfVariants == IF Thorough THEN {"negid", "constadd", "two", "loopin"} ELSE {"negid", "constadd", "two"}
+IfVariants == IF Thorough THEN {"negid", "constadd", "two", "loopin", "attrin"} ELSE {"negid", "constadd", "two", "attrin"}
+\* variants that reference the attribute parameter k inside a nested body (FunctionProto only)
+AttrVariants == {"attrin", "attrinc"}
 CmpOps == IF Thorough THEN {"Greater", "Less", "LessOrEqual"} ELSE {"Greater"}
 ForBody(k, init) ==      \* a for-loop over N adding 1.0 to its state, ids from k+1: used nested
   LET it == T(k + 1) cin == T(k + 2) s == T(k + 3)
@@ -234,6 +236,10 @@ ItemIf(csrc, v) ==
                               Blk(<<OpN("Neg", <<L>>, T(k + 1)), OpN("Identity", <<"X">>, T(k + 2))>>, <<T(k + 1), T(k + 2)>>),
                               Blk(<<OpN("Identity", <<"X">>, T(k + 3)), ConstN("cm1", T(k + 4))>>, <<T(k + 3), T(k + 4)>>))>>,
                  pty \o <<"f", "f", "f", "f", "f", "f">>, T(k + 5), T(k + 6))
+       [] v = "attrin" ->      \* the attribute parameter is referenced only inside the then-branch
+            Item(pre \o <<IfN(c, <<T(k + 4)>>, Blk(<<AttrN(T(k + 1)), OpN("Add", <<L, T(k + 1)>>, T(k + 2))>>, <<T(k + 2)>>),
+                                            Blk(<<OpN("Identity", <<L>>, T(k + 3))>>, <<T(k + 3)>>))>>,
+                 pty \o <<"f", "f", "f", "f">>, T(k + 4), L)
        [] v = "loopin" ->
             LET fb == ForBody(k, L) IN
             Item(pre \o <<IfN(c, <<T(fb.n + 2)>>, Blk(<<fb.node>>, <<fb.out>>),
@@ -250,9 +256,11 @@ ItemIf(csrc, v) ==
 LoopMenu == IF Thorough
             THEN {<<"for", "inc">>, <<"for", "swap">>, <<"for", "fib">>, <<"for", "iter">>, <<"for", "const">>, <<"for", "ifin">>,
                   <<"forc", "inc">>, <<"forc", "fib">>, <<"while", "inc">>, <<"whilei", "iter">>,
-                  <<"forwhile", "inc">>, <<"forwhile", "iter">>, <<"forwhile", "const">>, <<"forbc", "inc">>}
+                  <<"forwhile", "inc">>, <<"forwhile", "iter">>, <<"forwhile", "const">>, <<"forbc", "inc">>,
+                  <<"for", "attrinc">>, <<"while", "attrinc">>}
             ELSE {<<"for", "inc">>, <<"for", "swap">>, <<"for", "fib">>, <<"for", "iter">>, <<"for", "const">>,
-                  <<"forc", "inc">>, <<"while", "inc">>, <<"whilei", "iter">>, <<"forwhile", "inc">>, <<"forbc", "inc">>}
+                  <<"forc", "inc">>, <<"while", "inc">>, <<"whilei", "iter">>, <<"forwhile", "inc">>, <<"forbc", "inc">>,
+                  <<"for", "attrinc">>}
 ItemLoop(form, bv) ==
   LET needLim == form \in {"while", "forwhile", "forbc", "whilei"}
       needC0 == form \in {"while", "forwhile", "whilei"}
@@ -274,6 +282,8 @@ ItemLoop(form, bv) ==
               [] bv = "fib" -> [nodes |-> <<OpN("Add", <<s1, s2>>, T(kb + 1))>>, souts |-> <<T(kb + 1), s1>>, tys |-> <<"f">>]
               [] bv = "iter" -> [nodes |-> <<OpN("Cast", <<it>>, T(kb + 1)), OpN("Add", <<s1, T(kb + 1)>>, T(kb + 2))>>,
                                  souts |-> <<T(kb + 2)>>, tys |-> <<"f", "f">>]
+              [] bv = "attrinc" ->      \* s' = s + k: the attribute parameter is referenced only inside the body
+                   [nodes |-> <<AttrN(T(kb + 1)), OpN("Add", <<s1, T(kb + 1)>>, T(kb + 2))>>, souts |-> <<T(kb + 2)>>, tys |-> <<"f", "f">>]
               [] bv = "const" -> [nodes |-> <<ConstN("c2", T(kb + 1))>>, souts |-> <<T(kb + 1)>>, tys |-> <<"f">>]
               [] bv = "ifin" ->        \* an If inside the body: s' = s > X ? -s : s + X
                    [nodes |-> <<OpN("Greater", <<s1, "X">>, T(kb + 1)),
@@ -309,8 +319,10 @@ GenPow == CanGen /\ Append1(ItemPow, 0, FALSE, "op") /\ Keep
 GenVec == CanGen /\ Append1(ItemVec, 0, FALSE, "op") /\ Keep
 GenInit == CanGen /\ ~g.attr /\ g.inits = <<>> /\ (\E tok \in {"w0", "w6"} : Append1(ItemInit(tok), 0, FALSE, "init")) /\ Keep
 GenAttr == CanGen /\ ~g.attr /\ g.inits = <<>> /\ Append1(ItemAttr, 0, TRUE, "attr") /\ Keep
-GenIf == CanGen /\ g.cf < MaxCF /\ (\E c \in {"B"} \cup CmpOps, v \in IfVariants : Append1(ItemIf(c, v), 1, FALSE, "cf")) /\ Keep
-GenLoop == CanGen /\ g.cf < MaxCF /\ (\E fb \in LoopMenu : Append1(ItemLoop(fb[1], fb[2]), 1, FALSE, "cf")) /\ Keep
+GenIf == CanGen /\ g.cf < MaxCF /\ (\E c \in {"B"} \cup CmpOps, v \in IfVariants :
+                                        (v \in AttrVariants => g.inits = <<>>) /\ Append1(ItemIf(c, v), 1, v \in AttrVariants, "cf")) /\ Keep
+GenLoop == CanGen /\ g.cf < MaxCF /\ (\E fb \in LoopMenu :
+                                          (fb[2] \in AttrVariants => g.inits = <<>>) /\ Append1(ItemLoop(fb[1], fb[2]), 1, fb[2] \in AttrVariants, "cf")) /\ Keep
 
 \* graph outputs: the result(s) of the last item
 Outs == IF g.out2 = "" THEN <<g.last>> ELSE <<g.last, g.out2>>
@@ -543,7 +555,11 @@ HasCall(ss) == IF ss = <<>> THEN FALSE ELSE
   (CASE s.s \in {"call", "const", "attrconst"} -> TRUE [] s.s = "if" -> HasCall(s.th) \/ HasCall(s.el) [] s.s = "loop" -> HasCall(s.body) [] OTHER -> FALSE)
   \/ HasCall(Tail(ss))
 
+\* _attribute_param_types: the type of the attribute parameter is the type of a reference to it, looked for in the
+\* function body *and all nested graphs*; a parameter without reference is declared `int`.  The converter refuses
+\* value_float=k for k: int.
 Prog(params, body, rets, dv) == [params |-> params, body |-> body, rets |-> rets, prebound |-> Prebound(dv),
+                                 attrty |-> ex.attrty,
                                  indentBad |-> IndentBad(dv),
                                  deadIf |-> (Has("dead_if_refused", dv) /\ DeadIf(body, ArgNames(rets))),
                                  opsetOK |-> (~Has("no_default_opset", dv) \/ HasCall(body))]
@@ -584,6 +600,7 @@ Convertible(p) ==
   /\ ~p.deadIf
   /\ Cardinality(SeqSet(p.params)) = Len(p.params)
   /\ p.opsetOK
+  /\ (ATTRN \in Uses(p.body) => p.attrty = "float")
   /\ LET c == Chk(p.body, SeqSet(p.params) \cup {q[1] : q \in p.prebound})
      IN c[1] /\ \A j \in 1..Len(p.rets) : ArgOK(p.rets[j], c[2])
 
@@ -692,6 +709,7 @@ IndexNames ==
             nm |-> [i \in SeqSet(AllIds) |-> Nm(i)], clean |-> CleanTab,
             pyc |-> PyTable({"cleanup_collision"}, CleanTab), pyu |-> PyTable({}, CleanTab),
             baseu |-> [i \in SeqSet(AllIds) |-> BaseName(i, {}, CleanTab)],
+            attrty |-> IF \E i \in 1..Len(fl) : fl[i].k = "attrconst" THEN "float" ELSE "int",
             params |-> <<>>, code |-> <<>>, rets |-> <<>>, err |-> ""]
   /\ stage' = "sig"
   /\ UNCHANGED <<g, cfg, res>>
